@@ -334,7 +334,8 @@ def rule_expand(ctx: Ctx) -> RuleResult:
                                                                     f"levels (a string already of leaf length is lost)", f.relpath, t.lineno)
     # needed = count - current + 1
     ds = [d for d in flow.all_defs if d.var == nname and d.kind == "assign"]
-    if len(ds) == 1 and norm(ds[0].value) in ("count - current + 1", "count + 1 - current", "1 + count - current"):
+    if len(ds) == 1 and norm(ds[0].value).replace(f"{f.params[0]}.count('/')", "current") in ("count - current + 1", "count + 1 - current",
+                                                                                              "1 + count - current"):
         res.ok("expand level count", f"{nname} = count - current + 1 ; zero is allowed")
     else:
         res.violation([f.qualname, "level count"], f"expand: `{nname}` is not count - current + 1", f.relpath, f.node.lineno)
@@ -649,6 +650,47 @@ SKIP_OK = {
 }
 
 
+def _skip_role(ctx: Ctx, f: FunctionInfo, t: ast.AST, lab: str) -> Optional[str]:
+    """one of the accepted reasons to skip, recognised by what the tested values are (not by what they are called):
+    the search has no path; the glob pattern was already searched for this type; the found path was already answered;
+    the found Sid is empty / of another type than the searched one"""
+    fl = flow_of(f.node)
+    at = fl.node_of(t)
+    aid = at.id if at is not None else None
+
+    def deps(e):
+        return fl.depends(e, aid)
+
+    def from_listing(e) -> bool:
+        return any(a.kind == "call" and ("glob" in a.text or a.text.split(".")[-1] in ("listdir", "scandir", "iterdir")) for a in deps(e))
+
+    def from_search_path(e) -> bool:
+        return any(a.kind == "call" and a.text.split(".")[-1] == "path" for a in deps(e)) and not from_listing(e)
+
+    def from_found_sid(e) -> bool:
+        return any(a.kind == "call" and a.text == "Sid" for a in deps(e)) and from_listing(e)
+    inner = t.operand if isinstance(t, ast.UnaryOp) and isinstance(t.op, ast.Not) else None
+    if inner is not None and lab == "true" and isinstance(inner, ast.Name):
+        if from_found_sid(inner):
+            return "the found path conforms to no template (empty Sid)"
+        if from_search_path(inner):
+            return "the search has no path"
+    if isinstance(t, ast.Compare) and len(t.ops) == 1 and lab == "true":
+        if isinstance(t.ops[0], ast.Is) and isinstance(t.comparators[0], ast.Constant) and t.comparators[0].value is None and from_found_sid(t.left):
+            return "no Sid of the searched type for the found path"
+        if isinstance(t.ops[0], ast.In):
+            if from_listing(t.left):
+                return "the found path was already answered"
+            key_ = inline_locals(f, t.left, t, depth=1)
+            typed = any(isinstance(x, ast.Attribute) and x.attr == "type" for x in ast.walk(key_))
+            if from_search_path(t.left) and (typed or _per_type(fl, t.comparators[0], at)):
+                return "the glob pattern was already searched for this type"
+        if isinstance(t.ops[0], ast.NotEq) and isinstance(t.left, ast.Attribute) and t.left.attr == "type" and isinstance(t.comparators[0], ast.Attribute) \
+                and t.comparators[0].attr == "type" and (from_found_sid(t.left.value) or from_found_sid(t.comparators[0].value)):
+            return "the found Sid is of another type than the searched one"
+    return None
+
+
 def rule_skips(ctx: Ctx) -> RuleResult:
     """FindInPaths drops a found path only for the reasons the property names"""
     res = RuleResult("R-SKIPS")
@@ -683,6 +725,8 @@ def rule_skips(ctx: Ctx) -> RuleResult:
         elif lab == "true" and isinstance(t, ast.Compare) and len(t.ops) == 1 and isinstance(t.ops[0], ast.In) and norm(t.left) == "pattern" \
                 and _per_type(flow_of(f.node), t.comparators[0], cfg.node_of(t)):
             res.ok("FindInPaths: pattern dedupe", "per type")
+        elif _skip_role(ctx, f, t, lab):
+            res.ok(f"FindInPaths: continue under `{txt}`", _skip_role(ctx, f, t, lab))
         else:
             res.violation([q, "skip", txt], f"FindInPaths.star_search_simple skips a found path under `{txt}`: existing entities conforming to the "
                                             f"searched type are dropped for a reason the other finders do not have", f.relpath, c.lineno)
@@ -945,16 +989,26 @@ def rule_deleg(ctx: Ctx) -> RuleResult:
         "spil.sid.sid.DataSid.siblings_as": ["list(FindInAll().find(search, as_sid=True))"],
         "spil.sid.sid.DataSid.siblings": ["self.siblings_as(self.keytype)"],
     }
+    import re as _re
+
+    def _find_arg(fx, r_):
+        """the expression searched for when the return value is list(FindInAll().find(<it>, as_sid=True)), locals read through"""
+        v_ = inline_locals(fx, r_.value, r_)
+        m_ = isinstance(v_, ast.Call) and dotted(v_.func) == "list" and len(v_.args) == 1 and isinstance(v_.args[0], ast.Call) \
+            and norm(v_.args[0].func) == "FindInAll().find" and len(v_.args[0].args) == 1 and [(k.arg, norm(k.value)) for k in v_.args[0].keywords] == [
+                ("as_sid", "True")]
+        return norm(v_.args[0].args[0]) if m_ else None
     for q, forms in want.items():
         f = p.function(q)
-        if any(r.value is not None and norm(r.value) in forms for r in _rets(f)):
+        if any(r.value is not None and (norm(r.value) in forms or norm(inline_locals(f, r.value, r)) in forms or (
+                forms[0].startswith("list(FindInAll().find(") and _find_arg(f, r) is not None)) for r in _rets(f)):
             res.ok(q, f"delegates: {forms[0]}")
         else:
             res.violation([q, "delegation"], f"{f.short} no longer delegates to FindInAll as `{forms[0]}`", f.relpath, f.node.lineno)
     ch = p.function("spil.sid.sid.DataSid.children")
     flow = flow_of(ch.node)
-    srch = [d for d in flow.all_defs if d.var == "search" and d.value is not None]
-    if srch and norm(srch[0].value) == "self / '*'":
+    searched = [a_ for a_ in (_find_arg(ch, r_) for r_ in _rets(ch) if r_.value is not None) if a_ is not None]
+    if searched and all(a_ == "self / '*'" for a_ in searched):
         res.ok("DataSid.children search", "self / '*'")
     else:
         res.violation([ch.qualname, "search"], "children() does not search self / '*'", ch.relpath, ch.node.lineno)
@@ -971,8 +1025,8 @@ def rule_deleg(ctx: Ctx) -> RuleResult:
         res.violation([ch.qualname, "leaf rule"], "a leaf Sid has no children: is_leaf() / leaf_keys rule is gone", ch.relpath, ch.node.lineno)
     sa = p.function("spil.sid.sid.DataSid.siblings_as")
     flow = flow_of(sa.node)
-    srch = [d for d in flow.all_defs if d.var == "search" and d.value is not None]
-    if srch and norm(srch[0].value) == f"self.get_as({sa.params[1]}).get_with(key={sa.params[1]}, value='*')":
+    searched = [a_ for a_ in (_find_arg(sa, r_) for r_ in _rets(sa) if r_.value is not None) if a_ is not None]
+    if searched and all(a_ == f"self.get_as({sa.params[1]}).get_with(key={sa.params[1]}, value='*')" for a_ in searched):
         res.ok("DataSid.siblings_as search", "get_as(key).get_with(key=key, value='*')")
     else:
         res.violation([sa.qualname, "search"], "siblings_as(key) does not search get_as(key) with key='*'", sa.relpath, sa.node.lineno)
@@ -988,7 +1042,7 @@ def rule_match(ctx: Ctx) -> RuleResult:
     finals = []
     for r in _rets(f):
         v = r.value
-        tests = [(norm(t), lab) for t, lab in ctx.ef._dominating_tests(cfg, r)]
+        tests = [(ntext(f, t, t), lab) for t, lab in ctx.ef._dominating_tests(cfg, r)]
         if isinstance(v, ast.Constant) and v.value is True:
             if not any(t in (f"Sid({sp}) == self", f"self == Sid({sp})") and lab == "true" for t, lab in tests):
                 problems.append("returns True for something else than identity")
@@ -1000,17 +1054,17 @@ def rule_match(ctx: Ctx) -> RuleResult:
     if len(finals) != 1:
         problems.append("no single final comparison")
     else:
-        v = finals[0].value
+        v = inline_locals(f, finals[0].value, finals[0])
         flow = flow_of(f.node)
         ok = isinstance(v, ast.Compare) and isinstance(v.ops[0], ast.Eq) and norm(v.comparators[0]) == "self.string" \
             and isinstance(v.left, ast.Call) and isinstance(v.left.func, ast.Attribute) and v.left.func.attr == "find_one" \
             and v.left.args and norm(v.left.args[0]) == sp and any(k.arg == "as_sid" and norm(k.value) == "False" for k in v.left.keywords)
         if ok:
             recv = v.left.func.value
-            deps = flow.depends(recv)
-            ok = any(a.kind == "call" and a.text == "FindInList" for a in deps)
+            ok = isinstance(recv, ast.Call) and dotted(recv.func) == "FindInList" and len(recv.args) == 1 and norm(recv.args[0]) == "[self.string]" \
+                and not recv.keywords
             fl = [n for n in own_nodes(f.node) if isinstance(n, ast.Call) and dotted(n.func) == "FindInList"]
-            ok = ok and len(fl) == 1 and len(fl[0].args) == 1 and norm(fl[0].args[0]) == "[self.string]" and not fl[0].keywords
+            ok = ok and len(fl) == 1
         if not ok:
             problems.append("the answer is not `FindInList([self.string]).find_one(search_sid, as_sid=False) == self.string`")
     if problems:
@@ -1135,6 +1189,12 @@ def _key_function_body(f: FunctionInfo, key: ast.AST):
         rets = [n for n in own_nodes(g.node) if isinstance(n, ast.Return) and n.value is not None]
         if len(rets) == 1 and len(g.params) == 1:
             return g.params[0], rets[0].value
+    if isinstance(key, ast.Name) and key.id in f.module.functions:
+        # a module-level helper given by name (`key=_segments`)
+        g = f.module.functions[key.id]
+        rets = [n for n in own_nodes(g.node) if isinstance(n, ast.Return) and n.value is not None]
+        if len(rets) == 1 and len(g.params) == 1 and g.cls is None:
+            return g.params[0], rets[0].value
     return None, None
 
 
@@ -1149,6 +1209,106 @@ def _is_full_split(f: FunctionInfo, arg: str, e: ast.AST) -> bool:
         and len(e.args) == 1 and not e.keywords and norm(e.args[0]) in ("'/'", "conf.sip", "sip")
 
 
+def _sort_star_and_override(ctx: Ctx, f: FunctionInfo, res: RuleResult) -> None:
+    """clauses of R-SORT that do not depend on how the greatest entry is picked"""
+    rep = [n for n in own_nodes(f.node) if isinstance(n, ast.Call) and isinstance(n.func, ast.Attribute) and n.func.attr == "replace"
+           and len(n.args) == 2 and norm(n.args[0]) == "'>'" and norm(n.args[1]) == "'*'"]
+    untyped_rep = [n for n in rep if not (isinstance(n.func.value, ast.Attribute) and n.func.value.attr == "uri")]
+    if rep and untyped_rep:
+        res.violation([f.qualname, "star read", "type dropped"], f"sorted_search builds the '*' form from `{norm(untyped_rep[0].func.value)}`, not from the "
+                                                                 f"search's uri: each typed search loses its type and is typed again by the first "
+                                                                 f"template that fits the string", f.relpath, untyped_rep[0].lineno)
+    elif rep:
+        res.ok("sorted_search star read", "'>' is read as '*' in the uri of each typed search")
+    else:
+        res.violation([f.qualname, "star read"], "sorted_search no longer reads '>' as '*'", f.relpath, f.node.lineno)
+    # the '>' algorithm lives in FindByGlob alone: the Finders built on it supply star_search and nothing else of the dispatch
+    base = ctx.p.cls("spil.sid.read.finders.find_glob.FindByGlob")
+    n_sub = 0
+    for k in ctx.p.subclasses(base):
+        if k.module.kind not in ("library", "config") or k.module.name == "spil.sid.read.finders.find_cache":
+            continue
+        n_sub += 1
+        for nm in ("sorted_search", "do_find"):
+            if nm in k.methods:
+                m = k.methods[nm]
+                outs = [n for n in own_nodes(m.node) if isinstance(n, (ast.Yield, ast.YieldFrom)) or (isinstance(n, ast.Return) and n.value is not None)]
+                if len(outs) == 1 and not isinstance(outs[0], ast.Yield) and norm(outs[0].value).startswith(f"super().{nm}(") and not any(
+                        isinstance(n, ast.Return) and n.value is None for n in own_nodes(m.node)):
+                    continue
+                res.violation([k.qualname, nm, "override"], f"{k.name} overrides {nm}: '>' searches on it are answered by another algorithm than "
+                                                            f"FindByGlob.sorted_search", m.relpath, m.node.lineno)
+    res.ok("FindByGlob subclasses", f"{n_sub} subclass(es), none overrides sorted_search / do_find", nontrivial=False)
+
+def _sort_common(ctx: Ctx, f: FunctionInfo, res: RuleResult, flow) -> RuleResult:
+    _sort_star_and_override(ctx, f, res)
+    return res
+
+
+def _running_maximum(ctx: Ctx, f: FunctionInfo, res: RuleResult) -> bool:
+    """the other honest spelling of '>': one pass that keeps, per group, the greatest entry seen so far.
+    Accepted when: the entries are split at '/' in full; the group is the part before the '>' position; an entry replaces the kept one
+    only under a `>` comparison of ALL remaining segments (slices from the '>' position, or the full lists), never of the single
+    segment at that position; the groups are handed out in descending order.  Reports what is missing."""
+    fl = flow_of(f.node)
+    splits = {d.var for d in fl.all_defs if d.kind == "assign" and isinstance(d.value, ast.Call) and isinstance(d.value.func, ast.Attribute)
+              and d.value.func.attr == "split" and d.value.args and norm(d.value.args[0]) in ("'/'", "conf.sip", "sip")}
+    stores = [n for n in own_nodes(f.node) if isinstance(n, ast.Assign) and isinstance(n.targets[0], ast.Subscript) and isinstance(n.targets[0].value, ast.Name)]
+    if not splits or not stores:
+        return False
+    ok_any = False
+    for st in stores:
+        table = st.targets[0].value.id
+        gkey = inline_locals(f, st.targets[0].slice, st, depth=1)
+        gtxt = norm(gkey)
+        grouped = any(gtxt in (f"tuple({p_}[:index])", f"{p_}[:index]", f"'/'.join({p_}[:index])", f"tuple({p_}[0:index])") for p_ in splits) or any(
+            f"{p_}[:index]" in gtxt or f"{p_}[0:index]" in gtxt for p_ in splits)
+        if not grouped:
+            continue
+        cmps = [e_ for e_, truth_ in _fact_nodes_of(ctx, f, st) if truth_ and isinstance(e_, ast.Compare) and len(e_.ops) == 1
+                and isinstance(e_.ops[0], (ast.Gt, ast.GtE))]
+        if not cmps:
+            res.violation([f.qualname, "running maximum", "unguarded"], f"sorted_search: `{norm(st)}` replaces the entry kept for a group without comparing it",
+                          f.relpath, st.lineno)
+            return True
+        c = cmps[0]
+
+        def whole(e) -> bool:
+            # P[index:] / P (a full split), or a name bound to one
+            if isinstance(e, ast.Subscript) and isinstance(e.slice, ast.Slice) and e.slice.upper is None and e.slice.step is None:
+                return True
+            return isinstance(e, ast.Name) and e.id in splits
+        if not (whole(c.left) and whole(c.comparators[0])):
+            res.violation([f.qualname, "running maximum", "comparison"], f"sorted_search keeps the greatest entry of a group by `{norm(c)}`, which does not "
+                                                                         f"compare all remaining segments: entries that tie at the '>' position are ordered "
+                                                                         f"by the order they were read in", f.relpath, c.lineno)
+            return True
+        outs = [n for n in own_nodes(f.node) if isinstance(n, ast.For) and isinstance(n.iter, ast.Call) and dotted(n.iter.func) == "sorted"
+                and n.iter.args and norm(n.iter.args[0]).split(".")[0] == table]
+        desc = any(any(k.arg == "reverse" and isinstance(k.value, ast.Constant) and k.value.value is True for k in o.iter.keywords) for o in outs)
+        if not outs or not desc:
+            res.violation([f.qualname, "running maximum", "order"], "sorted_search does not hand out the groups in descending order", f.relpath, st.lineno)
+            return True
+        res.ok("sorted_search (running maximum)", f"per group `{gtxt}` the entry that is greatest under `{norm(c)}` (all remaining segments) is kept; groups "
+                                                  f"are handed out in descending order")
+        ok_any = True
+    return ok_any
+
+
+def _fact_nodes_of(ctx: Ctx, f: FunctionInfo, node):
+    from ..shape import fact_nodes_at
+
+    return fact_nodes_at(ctx, f, node)
+
+
+_INDEX_FORMS = ("str(search_sids[0]).split('/').index('>')", "search_sids[0].string.split('/').index('>')")
+
+
+def _index_names(flow) -> Set[str]:
+    """the local(s) holding the position of '>' among the '/'-segments of the first search"""
+    return {d.var for d in flow.all_defs if d.kind == "assign" and d.value is not None and norm(d.value) in _INDEX_FORMS}
+
+
 def rule_sort(ctx: Ctx) -> RuleResult:
     res = RuleResult("R-SORT")
     f = ctx.p.function("spil.sid.read.finders.find_glob.FindByGlob.sorted_search")
@@ -1157,7 +1317,10 @@ def rule_sort(ctx: Ctx) -> RuleResult:
         isinstance(n.func, ast.Attribute) and n.func.attr == "sort"))]
     groups = [n for n in own_nodes(f.node) if isinstance(n, ast.Call) and (dotted(n.func) or "").endswith("groupby")]
     if len(sorts) != 1 or len(groups) != 1:
-        res.violation([f.qualname, "shape"], "sorted_search is not one sort followed by one groupby", f.relpath, f.node.lineno)
+        if not groups and _running_maximum(ctx, f, res):
+            return _sort_common(ctx, f, res, flow)
+        res.violation([f.qualname, "shape"], "sorted_search is neither one sort followed by one groupby nor a running maximum per group", f.relpath,
+                      f.node.lineno)
         return res
     s, g = sorts[0], groups[0]
     kw = {k.arg: k.value for k in s.keywords}
@@ -1176,7 +1339,7 @@ def rule_sort(ctx: Ctx) -> RuleResult:
     okg = False
     if ga is not None and isinstance(gb, ast.Subscript) and isinstance(gb.slice, ast.Slice):
         sl = gb.slice
-        okg = sl.upper is not None and norm(sl.upper) == "index" and (sl.lower is None or norm(sl.lower) == "0") and sl.step is None \
+        okg = sl.upper is not None and norm(sl.upper) in _index_names(flow) and (sl.lower is None or norm(sl.lower) == "0") and sl.step is None \
             and _is_full_split(f, ga, gb.value)
     if okg:
         res.ok("sorted_search group key", "x.split('/')[:index]: the segments before the '>' position")
@@ -1207,22 +1370,11 @@ def rule_sort(ctx: Ctx) -> RuleResult:
     else:
         res.violation([f.qualname, "direction"], f"sorted_search sorts {'descending' if descending else 'ascending'} and yields `{pick}` of each "
                                                  f"group: not the greatest entry of the group", f.relpath, s.lineno)
-    ix = [d for d in flow.all_defs if d.var == "index" and d.value is not None]
-    if ix and norm(ix[0].value) in ("str(search_sids[0]).split('/').index('>')", "search_sids[0].string.split('/').index('>')"):
+    if _index_names(flow):
         res.ok("sorted_search index", "position of '>' among the segments")
     else:
         res.violation([f.qualname, "index"], "sorted_search does not locate '>' among the '/'-segments", f.relpath, f.node.lineno)
-    rep = [n for n in own_nodes(f.node) if isinstance(n, ast.Call) and isinstance(n.func, ast.Attribute) and n.func.attr == "replace"
-           and len(n.args) == 2 and norm(n.args[0]) == "'>'" and norm(n.args[1]) == "'*'"]
-    untyped_rep = [n for n in rep if not (isinstance(n.func.value, ast.Attribute) and n.func.value.attr == "uri")]
-    if rep and untyped_rep:
-        res.violation([f.qualname, "star read", "type dropped"], f"sorted_search builds the '*' form from `{norm(untyped_rep[0].func.value)}`, not from the "
-                                                                 f"search's uri: each typed search loses its type and is typed again by the first "
-                                                                 f"template that fits the string", f.relpath, untyped_rep[0].lineno)
-    elif rep:
-        res.ok("sorted_search star read", "'>' is read as '*' in the uri of each typed search")
-    else:
-        res.violation([f.qualname, "star read"], "sorted_search no longer reads '>' as '*'", f.relpath, f.node.lineno)
+    _sort_star_and_override(ctx, f, res)
     # the input to the sort is the de-duplicated set of found strings
     s_arg = s.args[0] if s.args else None
 
@@ -1239,23 +1391,6 @@ def rule_sort(ctx: Ctx) -> RuleResult:
         res.ok("sorted_search input", "duplicates are removed before sorting")
     else:
         res.violation([f.qualname, "duplicates"], "sorted_search sorts without removing duplicates", f.relpath, s.lineno)
-    # the '>' algorithm lives in FindByGlob alone: the Finders built on it supply star_search and nothing else of the dispatch
-    base = ctx.p.cls("spil.sid.read.finders.find_glob.FindByGlob")
-    n_sub = 0
-    for k in ctx.p.subclasses(base):
-        if k.module.kind not in ("library", "config") or k.module.name == "spil.sid.read.finders.find_cache":
-            continue
-        n_sub += 1
-        for nm in ("sorted_search", "do_find"):
-            if nm in k.methods:
-                m = k.methods[nm]
-                outs = [n for n in own_nodes(m.node) if isinstance(n, (ast.Yield, ast.YieldFrom)) or (isinstance(n, ast.Return) and n.value is not None)]
-                if len(outs) == 1 and not isinstance(outs[0], ast.Yield) and norm(outs[0].value).startswith(f"super().{nm}(") and not any(
-                        isinstance(n, ast.Return) and n.value is None for n in own_nodes(m.node)):
-                    continue
-                res.violation([k.qualname, nm, "override"], f"{k.name} overrides {nm}: '>' searches on it are answered by another algorithm than "
-                                                            f"FindByGlob.sorted_search", m.relpath, m.node.lineno)
-    res.ok("FindByGlob subclasses", f"{n_sub} subclass(es), none overrides sorted_search / do_find", nontrivial=False)
     return res
 
 
@@ -1279,6 +1414,29 @@ def rule_groupfinder(ctx: Ctx) -> RuleResult:
                       and dotted(d.value.func) == getter]
                 if ds:
                     ok = True
+        # the same grouping through itertools.groupby: the runs it delivers are merged per instance in a dictionary keyed by the
+        # groupby key, whose key function is get_finder / get_getter
+        gb_filled = False
+        for lp in [n for n in own_nodes(f.node) if isinstance(n, ast.For) and isinstance(n.iter, ast.Call) and (dotted(n.iter.func) or "").endswith("groupby")]:
+            kf = next((k.value for k in lp.iter.keywords if k.arg == "key"), lp.iter.args[1] if len(lp.iter.args) > 1 else None)
+            body_ = None
+            if isinstance(kf, ast.Lambda):
+                body_ = kf.body
+            elif isinstance(kf, ast.Name) and kf.id in f.nested:
+                rr = [r_.value for r_ in own_nodes(f.nested[kf.id].node) if isinstance(r_, ast.Return) and r_.value is not None]
+                body_ = rr[0] if len(rr) == 1 else None
+            if not (isinstance(body_, ast.Call) and dotted(body_.func) == getter) or not isinstance(lp.target, ast.Tuple) or len(lp.target.elts) != 2:
+                continue
+            kname, gname = norm(lp.target.elts[0]), norm(lp.target.elts[1])
+            for c in ast.walk(lp):
+                if isinstance(c, ast.Call) and isinstance(c.func, ast.Attribute) and c.func.attr in ("extend", "__iadd__") and c.args and norm(c.args[0]) in (
+                        gname, f"list({gname})") and isinstance(c.func.value, ast.Call) and isinstance(c.func.value.func, ast.Attribute) \
+                        and c.func.value.func.attr == "setdefault" and c.func.value.args and norm(c.func.value.args[0]) == kname:
+                    from ..shape import facts_at as _fa9
+
+                    if (kname, False) not in _fa9(ctx, f, c):
+                        ok = True
+                        gb_filled = True
         loops = [n for n in own_nodes(f.node) if isinstance(n, ast.For) and norm(n.iter).endswith(".items()")]
         delegated = any(isinstance(c, ast.Call) and isinstance(c.func, ast.Attribute) and c.func.attr == do for lp in loops for c in ast.walk(lp))
         # every typed search lands in its group: under the 'a Finder / Getter is configured' fact the loop variable is added to the
@@ -1298,6 +1456,7 @@ def rule_groupfinder(ctx: Ctx) -> RuleResult:
                     hidden = any(isinstance(x, ast.BoolOp) and isinstance(x.op, ast.And) for x in ast.walk(grp))
                     if not neg and not hidden:
                         filled = True
+        filled = filled or gb_filled
         if ok and delegated and not filled:
             res.violation([q, "group filling"], f"{f.short}: the typed searches are not added to the group of their {getter}() instance (under "
                                                f"'an instance is configured'): the groups handed to {do} are empty or incomplete", f.relpath, f.node.lineno)
